@@ -9,7 +9,7 @@
    steps:
      connect nofirst | connect first <frame>          frame = <ver> <typ> <id> <len> <tag> <info>
      psend <frame> [cut <k>]                          info  = o | c <st> | n | v <cur> <mx> <st> | s <code>
-     reply <to> <ver> <typ> <len> <tag> <info>
+     reply <to> <ver> <typ> <len> <tag> <info> [cut <k>]
      send <c> <typ> <len> <tag> <msgid> <ver> <wait 0|1> <gate 0|1>
      shutdown <c> | expect | drain | prest (rest of the frame sent cut before) | cancel <c> | wait <c> | close | pclose | wconn | state | wfail <k> | newclient
    output, one line per script:  obs ; obs ; ... | final-section ; final-section ...
@@ -57,9 +57,11 @@ let parse_step toks =
      | ["cut"; k] -> SPeerSend { pf_frame = f; pf_cut = Some (ni k) }
      | _ -> SPeerSend { pf_frame = f; pf_cut = None })
   | "reply" :: to_ :: ver :: typ :: len :: tag :: r ->
-    let (i, _) = parse_info r in
-    SReply (nat_of_int (int_of_string to_),
-            { f_ver = ni ver; f_typ = ni typ; f_id = N0; f_len = ni len; f_tag = ni tag; f_info = i })
+    let (i, r') = parse_info r in
+    let f = { f_ver = ni ver; f_typ = ni typ; f_id = N0; f_len = ni len; f_tag = ni tag; f_info = i } in
+    (match r' with
+     | ["cut"; k] -> SReplyCut (nat_of_int (int_of_string to_), f, ni k)
+     | _ -> SReply (nat_of_int (int_of_string to_), f))
   | ["send"; c; typ; len; tag; mid; ver; wait; gate] ->
     SSend (ni c, { q_typ = ni typ; q_len = ni len; q_tag = ni tag; q_id = ni mid; q_ver = ni ver;
                    q_wait = (wait = "1"); q_gate = (gate = "1") })
@@ -173,6 +175,22 @@ let () =
                   | PReady -> "ready" | PDraining _ -> "draining" | PReturned _ -> "returned");
               "flags " ^ b2s s.ready ^ " " ^ b2s s.closed;
               "closecalls " ^ String.concat " " (List.map b2s s.close_calls);
+              (* --- added for the model-in-the-loop walk generator (checks/client_walk.py) --- *)
+              "writer " ^ (let fr (o : oframe) = si o.o_frame.f_typ ^ " " ^ si o.o_frame.f_id ^ " " ^ (match o.o_src with None -> "-" | Some c -> si c) in
+                           match s.writer with
+                           | WNone -> "none" | WTop -> "top" | WInner -> "inner" | WHolding o -> "holding " ^ fr o
+                           | WPayload o -> "payload " ^ fr o | WParked -> "parked" | WDead -> "dead" | WExit -> "exit");
+              "reader " ^ (match s.reader with
+                  | RNone -> "none" | RTop -> "top" | RRead -> "read" | RWaitDone -> "waitdone" | RDead -> "dead" | RExit -> "exit");
+              "awaiting " ^ String.concat " , " (List.map (fun (i, c) -> si i ^ " " ^ si c) s.awaiting);
+              "peerq " ^ string_of_int (List.length m.m_peerq) ^ " " ^
+              (match m.m_peerq with p :: _ -> (match p.pf_cut with Some _ -> "cut" | None -> "whole") | [] -> "-");
+              "pclosed " ^ b2s m.m_peer_closed;
+              "fail " ^ (match m.m_fail with Some k -> "armed " ^ si k | None -> if m.m_failed then "failed" else "none");
+              "cphases " ^ String.concat " , " (List.map (fun (c, p) -> si c ^ " " ^
+                  (match p with Gate _ -> "gate" | Queued _ -> "queued" | HasToken (_, i) -> "token:" ^ si i | Done _ -> "done")) s.callers);
+              "version " ^ si s.version;
+              "nextid " ^ si s.next_id;
               "nevents " ^ string_of_int (List.length m.m_events);
               "replay " ^ (if replay_ok sc m = s then "ok" else "MISMATCH");
               "fuel " ^ (if m.m_fuel_out then "OUT" else "ok");
